@@ -53,9 +53,9 @@ def command_line_flow(run, seed):
         root = d / 'localrepo'
         root.mkdir()
         pwf, keyf, pws = {}, {}, {}
-        for u in 'abcd':
+        for u in 'abcde':
             # a pass phrase of two lines (the whole content of the file is the password), for c the clone of a: the same file
-            pws[u] = pws['a'] if u == 'c' else b'first line %s\nsecond line %s\n' % (r.randbytes(3).hex().encode(), u.encode())
+            pws[u] = pws['a'] if u == 'c' else b'' if u == 'e' else b'first line %s\nsecond line %s\n' % (r.randbytes(3).hex().encode(), u.encode())      # e: an EMPTY pass phrase
             pwf[u] = d / ('password-%s.txt' % u)
             pwf[u].write_bytes(pws[u])
             keyf[u] = d / ('key-%s.json' % u)
@@ -68,7 +68,8 @@ def command_line_flow(run, seed):
         steps = [cli('init', *common, '-P', pwf['a'], '-o', keyf['a'], *fast, '--chunking.min-length', '64', '--chunking.max-length', '256'),
                  cli('add-key', *common, '-K', keyf['a'], '-P', pwf['a'], '-N', pwf['b'], '--shared', '-o', keyf['b'], *fast),
                  cli('add-key', *common, '-K', keyf['a'], '-P', pwf['a'], '--clone', '-o', keyf['c'], *fast),
-                 cli('add-key', *common, '-N', pwf['d'], '-o', keyf['d'], *fast)]
+                 cli('add-key', *common, '-N', pwf['d'], '-o', keyf['d'], *fast),
+                 cli('add-key', *common, '-K', keyf['a'], '-P', pwf['a'], '-N', pwf['e'], '--shared', '-o', keyf['e'], *fast)]
         for i, p in enumerate(steps):
             if p.returncode != 0:
                 from .. import tlc
@@ -76,7 +77,7 @@ def command_line_flow(run, seed):
         objs, _ = c03_local.observe(str(root))
         st = membackend.Store(objs)
         try:
-            s = repodrv.Session('cli', d / 'sess', seed=seed, store=st, prebuilt={u: (pws[u], keyf[u].read_bytes()) for u in 'abcd'})
+            s = repodrv.Session('cli', d / 'sess', seed=seed, store=st, prebuilt={u: (pws[u], keyf[u].read_bytes()) for u in 'abcde'})
         except refcodec.FormatError as ex:
             # a key file written by the command line does not open with the full content of its own password file (independent codec)
             run.violation('P:UnlockOwnPasswordOnly', 'any', {'setup': 'command line', 'what': 'a key made by init / add-key does not open with its own password file', 'error': str(ex)})
@@ -84,12 +85,12 @@ def command_line_flow(run, seed):
         desc = ['init / add-key --shared (b) / add-key --clone (c) / add-key (d) through the command line']
         # what was asked for is what the keys are
         ka = s.holders['a']
-        for u, kind in (('b', 'shared'), ('c', 'clone'), ('d', 'indep')):
+        for u, kind in (('b', 'shared'), ('c', 'clone'), ('d', 'indep'), ('e', 'shared')):
             ku = s.holders[u]
             s._marker('out', {'a': 'keyrel', 'p': 1, 'u': u, 'of': 'a', 'kind': kind, 'samefam': s.fam[u] == s.fam['a'], 'samekey': ku.userkey == ka.userkey}, 'out')
         # snapshots through the command line, each in its own process
         files = [s.write_file('doc%d.bin' % i, r.randbytes(r.choice([300, 900, 2500]))) for i in range(3)]
-        for n, u in enumerate('abcda'):
+        for n, u in enumerate('abcdea'):
             client = 'cli%d' % n
             s._marker('begin', {'want': s.capture(files), 'D': [], 'unknown': False, 'allempty': False, 'p': 1, 'k': 'snap', 'u': u}, client)
             p = cli('snapshot', *common, '-K', keyf[u], '-P', pwf[u], s.src, hashseed=77 + n)
